@@ -130,6 +130,21 @@ func c06State(p *core.Prog, r *core.Run, m *echModel, pre string) {
 			m1 := core.HasFact(fs, "==", rec+`\[5\]`, "1")
 			cnt := core.HasFact(fs, "==", `\(\*sync/atomic\.Int32\)\.Load\(p0\.retryCount\)`, "1")
 			sameRec := s.X.Args[1].String() == "ech.readRecord(p0.Conn)#0"
+			// the counter is read after the record has arrived: a reader already
+			// blocked in readRecord when the HelloRetryRequest goes out must still see it
+			fresh := false
+			for _, f := range fs {
+				if f.Op == "==" && f.R != nil && f.R.Name == "1" && f.L.Op == "call" && f.L.Name == "(*sync/atomic.Int32).Load" {
+					if ld, ok := f.L.Val.(ssa.Instruction); ok {
+						for _, rr := range callSites(p, []*ssa.Function{s.Fn}, `ech\.readRecord`) {
+							if core.Before(rr.Instr, ld) {
+								fresh = true
+							}
+						}
+					}
+				}
+			}
+			cnt = cnt && fresh
 			// readPassthrough = true in the same block (before or after)
 			latched := false
 			for _, in := range s.Block().Instrs {
@@ -183,9 +198,14 @@ func c06State(p *core.Prog, r *core.Run, m *echModel, pre string) {
 	}
 	r.Floor(pre+".M3", 6)
 
+	// the list the retry is compared with cannot be edited from outside
+	connAccessorsCopy(p, r, m, pre+".M5")
+
 	// --- M4: processor under isRetry
 	isRetry := boolAssume("isRetry", true, func(e *core.Expr) bool { return e.Val == ssa.Value(m.retryP) }).asContext()
-	procOK := func(ret *ssa.Return) bool { return !isNilConst(ret.Results[0]) }
+	// on a retry every way out without an error counts as "not aborted", also
+	// the (nil, nil) return that means "no ECH, pass through"
+	procOK := func(ret *ssa.Return) bool { return lastResultNil(ret) }
 	helloExt := func(names ...string) func(*core.Expr) bool {
 		return func(e *core.Expr) bool {
 			for i := len(names) - 1; i >= 0; i-- {
@@ -239,7 +259,7 @@ func c06State(p *core.Prog, r *core.Run, m *echModel, pre string) {
 		cmpAssume("decrypted bytes == nil", "==", func(e *core.Expr) bool {
 			a, ok := p.IsCellLoad(e.Val)
 			return ok && a == m.innerCell
-		}, isConstName("nil"))}, "ech.ErrDecryptError", procOK)
+		}, isConstName("nil"))}, "ech.ErrDecryptError", func(ret *ssa.Return) bool { return !isNilConst(ret.Results[0]) })
 	view := assumeParam(m.process, m.retryP, true)
 	for i, s := range m.setup {
 		r.Check(pre+".M4", fmt.Sprintf("process:no-setup-on-retry#%d", i), !view.Live(s.Block()), p.InstrPos(s.Instr), "no new HPKE context is set up for a retried hello (the stored context, hence the next sequence number, is used)")
